@@ -21,14 +21,17 @@ def programs(tier):
           q("is_phantom", "bool"), q("phantom", "u8")]
     i0 = Interface(name="If0", module="if0", custom="msg=Empty, query=Empty", assoc=(("Rt", "sylvia::serde::Serialize + sylvia::serde::de::DeserializeOwned + std::fmt::Debug + Clone + PartialEq + sylvia::schemars::JsonSchema"),),
                    assoc_impl=(("Rt", "Coin"),),
-                   methods=(q("iq_u32", "u32"), q("phantom_count", "u64"), q("iq_resp_lit", "OtherResp", msg_params=", resp=OtherResp", ret="Result<String, Self::Error>"), q("iq_assoc", "Self::Rt"), q("iq_vec_assoc", "Vec<Self::Rt>", (Arg("x", "Self::Rt"),)), Method("exec", "ie", ())))
+                   methods=(q("iq_u32", "u32"), q("phantom_count", "u64"), q("iq_resp_lit", "OtherResp", msg_params=", resp=OtherResp", ret="Result<String, Self::Error>"), q("iq_assoc", "Self::Rt"), q("iq_vec_assoc", "Vec<Self::Rt>", (Arg("x", "Self::Rt"),)),
+                            # the associated type inside response types that are not paths
+                            q("iq_tup_assoc", "(u64, Self::Rt)"), q("iq_arr_assoc", "[Self::Rt; 2]"), q("iq_opt_tup_assoc", "Option<(u32, Self::Rt)>"), Method("exec", "ie", ())))
     i1 = Interface(name="If1", module="if1", custom="msg=Empty, query=Empty", methods=(q("jq_inner", "Inner"), q("jq_addr", "Addr")))
     base = [Method("instantiate", "inst", ()), Method("exec", "ex", ())]
     out.append(("pq0", Contract(methods=tuple(base + cq), interfaces=(i0, i1), entry_points=""), {"If0": {"Self::Rt": "Coin"}}))
     out.append(("pq1", Contract(methods=tuple(base + cq[:3]), interfaces=(), entry_points=""), {}))
     out.append(("pq2", Contract(methods=tuple(base), interfaces=(i1, i0), entry_points=""), {"If0": {"Self::Rt": "Coin"}}))
     B = "sylvia::serde::Serialize + sylvia::serde::de::DeserializeOwned + std::fmt::Debug + Clone + PartialEq + sylvia::schemars::JsonSchema + 'static"
-    gq = [q("g_direct", "TA"), q("g_vec", "Vec<TA>"), q("g_plain", "u32"), q("g_arg", "String", (Arg("x", "TB"),))]
+    gq = [q("g_direct", "TA"), q("g_vec", "Vec<TA>"), q("g_plain", "u32"), q("g_arg", "String", (Arg("x", "TB"),)), q("g_tup", "(TA, u32)"), q("g_arr", "[TA; 2]"),
+          q("g_opt_tup", "Option<(u8, TA)>")]
     out.append(("pq3", Contract(methods=tuple(base + gq), generics=(("TA", ""), ("TB", "")), where=("TA: " + B, "TB: " + B), concrete=("Inner", "u64"),
                                 entry_points="generics<Inner, u64>", new="pub const fn new() -> Self { Self { _p: std::marker::PhantomData } }", interfaces=(i1,)),
                 {"Ct": {"TA": "Inner", "TB": "u64"}}))
@@ -41,7 +44,51 @@ def programs(tier):
     return out
 
 
-def glue(c, subst):
+OTHER_MOD = """
+pub mod other {
+    use super::*;
+    pub mod oif {
+        use super::*;
+        #[sylvia::interface]
+        #[sv::custom(msg=Empty, query=Empty)]
+        pub trait Oif {
+            type Error: From<StdError>;
+            #[sv::msg(query)]
+            fn proposal(&self, ctx: QueryCtx, id: u64) -> Result<Inner, Self::Error>;
+        }
+    }
+    pub struct Oc;
+    #[sylvia::contract]
+    #[sv::messages(oif as Oif)]
+    impl Oc {
+        pub const fn new() -> Self { Self }
+        #[sv::msg(instantiate)]
+        fn inst(&self, ctx: InstantiateCtx) -> StdResult<Response> { todo!() }
+        #[sv::msg(query)]
+        fn tally(&self, ctx: QueryCtx) -> StdResult<u64> { todo!() }
+    }
+    impl oif::Oif for Oc {
+        type Error = StdError;
+        fn proposal(&self, ctx: QueryCtx, id: u64) -> Result<Inner, Self::Error> { todo!() }
+    }
+    #[derive(sylvia::schemars::JsonSchema)]
+    #[schemars(crate = "sylvia::schemars")]
+    pub struct Both {
+        pub first: <super::Ct as ContractApi>::ContractQuery,
+        pub second: <Oc as ContractApi>::ContractQuery,
+        pub first_exec: <super::Ct as ContractApi>::ContractExec,
+    }
+    #[derive(sylvia::schemars::JsonSchema)]
+    #[schemars(crate = "sylvia::schemars")]
+    pub struct BothRev {
+        pub second: <Oc as ContractApi>::ContractQuery,
+        pub first: <super::Ct as ContractApi>::ContractQuery,
+    }
+}
+"""
+
+
+def glue(c, subst, two=False):
     ct = e2.contract_concrete_ty(c)
     parts = [("contract", "<%s as ContractApi>::Query" % ct, "Ct", [m for m in c.methods if m.kind == "query"])]
     for i in c.interfaces:
@@ -56,12 +103,19 @@ def glue(c, subst):
             decl.append('"%s::%s": vsupport::sj(&schema_for!(%s))' % (label, bare(m.name), t))
     body = ('"schemas" => { use vsupport::sylvia::cw_schema::QueryResponses; use vsupport::sylvia::cw_schema::schema_for; json!({\n'
             '  "parts": {%s},\n  "parts_checked": {%s},\n  "wrapper": vsupport::sj(&<%s>::response_schemas_impl()),\n  "wrapper_checked": <%s>::response_schemas().map(|m| vsupport::sj(&m)).map_err(|e| e.to_string()).unwrap_or_else(|e| json!({"integrity_error": e})),\n'
-            '  "wrapper_schema": vsupport::sj(&schema_for!(%s)),\n  "part_schema": {%s},\n  "decl": {%s}\n}) },' % (
+            '  "wrapper_schema": vsupport::sj(&schema_for!(%s)),\n  "part_schema": {%s},\n  "decl": {%s},\n  "two": TWO\n}) },' % (
                 ", ".join('"%s": vsupport::sj(&<%s>::response_schemas_impl())' % (label, ty) for label, ty, _, _ in parts),
                 ", ".join('"%s": <%s>::response_schemas().map(|m| vsupport::sj(&m)).unwrap_or_else(|e| json!({"integrity_error": e.to_string()}))' % (label, ty) for label, ty, _, _ in parts),
                 W, W, W,
                 ", ".join('"%s": vsupport::sj(&schema_for!(%s))' % (label, ty) for label, ty, _, _ in parts),
                 ", ".join(decl)))
+    two_expr = "Value::Null"
+    if two:
+        two_expr = ('json!({"both": vsupport::sj(&schema_for!(other::Both)), "both_rev": vsupport::sj(&schema_for!(other::BothRev)), '
+                    '"other_wrapper": vsupport::sj(&schema_for!(<other::Oc as ContractApi>::ContractQuery)), '
+                    '"other_parts": [vsupport::sj(&schema_for!(<other::Oc as other::oif::sv::InterfaceMessagesApi>::Query)), vsupport::sj(&schema_for!(<other::Oc as ContractApi>::Query))], '
+                    '"first_exec_wrapper": vsupport::sj(&schema_for!(<%s as ContractApi>::ContractExec))})' % ct)
+    body = body.replace("TWO", two_expr)
     return e2.subject_impl(e2.basic_glue(c, None, with_ep=False, with_mt=False) + [body])
 
 
@@ -78,8 +132,11 @@ def run(tier):
     progs = programs(tier)
     cp = e2.Corpus("query-" + tier)
     for pid, c, subst in progs:
-        text = e2.render_program(pid, c, glue=glue(c, subst))
+        two = pid in ("pq0", "pq1")
+        text = e2.render_program(pid, c, glue=glue(c, subst, two=two))
         text = text.replace("use vsupport::{json, Value};", "use vsupport::{json, Value};\ntype AliasRes = StdResult<OtherResp>;")
+        if two:
+            text = text.replace("pub struct Ct;", OTHER_MOD + "\npub struct Ct;", 1)
         cp.add(pid, text)
     cp.write()
     cp.build()
@@ -150,12 +207,39 @@ def run(tier):
             for r in resolved:
                 if r is None or not any(all(r.get(k) == p.get(k) for k in ("oneOf", "anyOf", "type", "enum") if k in p or k in r) for p in part_schemas):
                     bad("an any-of entry of the contract-level schema does not resolve to any part's schema: %s" % json.dumps(r)[:300], "any_of_entry")
+        two = o.get("two")
+        if two:
+            res.add(states=2, transitions=2, evaluations=2)
+            res.mark_nontrivial("%s|two" % pid)
+            # a schema generator that meets the contract-level messages of two contracts must keep them apart:
+            # each field resolves to that contract's own any-of, whichever comes first
+            def entries(root, field):
+                defs = root.get("definitions", {})
+                node = root["properties"][field]
+                while "$ref" in node:
+                    node = defs.get(node["$ref"].split("/")[-1], {})
+                outp = []
+                for ent in node.get("anyOf") or []:
+                    while "$ref" in ent:
+                        ent = defs.get(ent["$ref"].split("/")[-1], {})
+                    outp.append({k: v for k, v in ent.items() if k in ("oneOf", "anyOf", "type", "enum")})
+                return outp
+            want_first = [{k: v for k, v in o["part_schema"][label].items() if k in ("oneOf", "anyOf", "type", "enum")} for label, disp, ms in parts]
+            want_second = [{k: v for k, v in p.items() if k in ("oneOf", "anyOf", "type", "enum")} for p in two["other_parts"]]
+            canon = lambda xs: sorted(json.dumps(x, sort_keys=True) for x in xs)
+            for root_name in ("both", "both_rev"):
+                for field, want in (("first", want_first), ("second", want_second)):
+                    got = entries(two[root_name], field)
+                    res.outcome(("two", canon(got) == canon(want)))
+                    if canon(got) != canon(want):
+                        bad("a schema document embedding the contract-level query messages of two contracts (%s): field `%s` resolves to any-of %s, that contract's parts are %s" % (
+                            root_name, field, json.dumps(got)[:300], json.dumps(want)[:300]), "two_contracts", root=root_name, field=field)
     res.parts["programs"] = len(progs)
     res.sample({"program": "pq0", "contract_level_table_keys": sorted(obs["pq0"]["wrapper"].keys()) if "pq0" in obs else None})
     res.cov["rule"] = ("compiled programs with queries returning u32 / String / struct / Vec<struct> / enum via Result<_, E> / unit / Option / a type given with resp= "
-                       "behind an aliased result / a generic parameter (directly and in Vec) / an interface's associated type (directly, in Vec), on contracts with "
+                       "behind an aliased result / a generic parameter (directly and in Vec) / an interface's associated type (directly, in Vec, inside a tuple / array / Option of a tuple; same for the generic parameter), on contracts with "
                        "0-2 interfaces in both orders and with / without own queries (thorough adds 12 types x 0-2 interfaces): every part's response table keys == "
                        "query wire names, every value == schema_for!(declared type), contract-level table == union of the parts, contract-level schema's any-of "
-                       "resolves to the parts' schemas, cosmwasm-schema's integrity check passes.  non-trivial = every (program, part, query)")
+                       "resolves to the parts' schemas, cosmwasm-schema's integrity check passes; a schema document embedding the contract-level query messages of two contracts (both field orders) resolves each to its own contract's parts.  non-trivial = every (program, part, query)")
     res.assumptions += ["schemas are compared as serde_json values of schemars' RootSchema", "the synthetic `__phantom` entry of generic messages is ignored"]
     return res.finish()
